@@ -20,6 +20,6 @@ Here is a semantic property that the library is supposed to satisfy:
 
 Your task: produce ONE small change (a patch) to the library source under {wt}/rpyc that BREAKS this property, while (a) the package still imports/compiles, and (b) all 57 currently-passing tests still pass with the change. The change should look like a plausible maintainer mistake or 'harmless refactoring' (off-by-one at a boundary, a wrong constant, a swapped argument, a dropped guard, a condition slightly weakened, a missing step on an error path, two sites that each look fine alone...). It must need something SPECIFIC to manifest - an unusual input, a particular boundary size, a multi-step sequence of operations, a fault at a particular point - and must not be exposed at once by ordinary use. Do not edit tests. Do not add new files under rpyc/. Keep the diff small (ideally 1-10 changed lines). {extra}
 
-Then write a demonstration: a small standalone script {wt}/demo.py (run as: cd {wt} && /venv/bin/python demo.py) that exits 0 and prints PASS when the property holds for its scenario, and exits 1 and prints FAIL (with what was observed) when it does not. It must FAIL with your change and PASS on the unchanged code (check both: use `git stash` / `git diff > /tmp/x.diff; git checkout -- rpyc; ...; git apply /tmp/x.diff` to flip). The demo should exercise the real library (in-process is fine: e.g. rpyc.core.brine directly, or a connection pair over a socketpair/pipe with a server thread), must terminate within 60 seconds in both cases, and must not depend on network beyond localhost.
+Then write a demonstration: a small standalone script {wt}/demo.py (run as: cd {wt} && /venv/bin/python demo.py) that exits 0 and prints PASS when the property holds for its scenario, and exits 1 and prints FAIL (with what was observed) when it does not. It must FAIL with your change and PASS on the unchanged code (check both: flip with `git diff -- rpyc > {wt}.mine.diff; git checkout -- rpyc; ...; git apply {wt}.mine.diff` - NEVER use `git stash`: the stash is shared with other agents' worktrees). The demo should exercise the real library (in-process is fine: e.g. rpyc.core.brine directly, or a connection pair over a socketpair/pipe with a server thread), must terminate within 60 seconds in both cases, and must not depend on network beyond localhost.
 
 Finish with the change APPLIED in the worktree (uncommitted, so that `git -C {wt} diff -- rpyc` shows it) and demo.py present. In your final answer report: the diff, why it breaks the property, what specific circumstance it needs to manifest, the exact commands you ran to confirm (full test suite result with the change: number passed/failed; demo result with and without the change).""")
